@@ -443,6 +443,71 @@ func sliceLitElems(v ssa.Value) ([]ssa.Value, bool) {
 	return elems, true
 }
 
+// truncatedToEmpty: v is fld[:0] of the same object's field fld — the buffer emptied in place (its backing array is kept).
+func truncatedToEmpty(v ssa.Value, fld *types.Var) bool {
+	sl, ok := v.(*ssa.Slice)
+	if !ok || sl.High == nil || sl.Max != nil {
+		return false
+	}
+	if h, ok := constInt64(sl.High); !ok || h != 0 {
+		return false
+	}
+	if sl.Low != nil {
+		if l, ok := constInt64(sl.Low); !ok || l != 0 {
+			return false
+		}
+	}
+	_, ok = isFieldLoad(sl.X, fld)
+	return ok
+}
+
+// copyConstructStore: st initialises field F of an object allocated in this very function (a composite literal or
+// new(T)) with a copy of field F of ANOTHER object of the same type — a scalar loaded from it, or
+// slices.Clone / slices.Clip(slices.Clone) / maps.Clone of it. The new object then satisfies every invariant over F
+// that the source object satisfies; who-may-write rules treat such a store as construction, not as mutation.
+func copyConstructStore(st *ssa.Store) bool {
+	fa, ok := st.Addr.(*ssa.FieldAddr)
+	if !ok {
+		return false
+	}
+	al, ok := fa.X.(*ssa.Alloc)
+	if !ok {
+		return false
+	}
+	fld := fieldOfAddr(fa)
+	v := st.Val
+	copied := false
+	for i := 0; i < 3; i++ {
+		call, ok := v.(*ssa.Call)
+		if !ok {
+			break
+		}
+		cal := call.Call.StaticCallee()
+		if cal == nil || len(call.Call.Args) != 1 {
+			return false
+		}
+		switch {
+		case extFuncIs(cal, "slices", "Clone"), extFuncIs(cal, "maps", "Clone"):
+			copied = true
+		case extFuncIs(cal, "slices", "Clip"):
+		default:
+			return false
+		}
+		v = call.Call.Args[0]
+	}
+	src, ok := isFieldLoad(v, fld)
+	if !ok || src.X == ssa.Value(al) {
+		return false
+	}
+	switch fld.Type().Underlying().(type) {
+	case *types.Slice, *types.Map:
+		return copied // a reference type must be cloned, not shared
+	case *types.Pointer, *types.Chan, *types.Signature, *types.Interface:
+		return false
+	}
+	return true
+}
+
 // ---- AST helpers ----------------------------------------------------------------------------
 
 // funcDecl finds a function declaration: recv "" for package-level functions, else the receiver type name.
